@@ -559,6 +559,15 @@ fn run_case<P: PipelineRuntime, D: Driver>(
             Ok(Driven::Deadlock(kind, parked)) => {
                 sm.insert("outcome".into(), json!("deadlock"));
                 sm.insert("deadlock_kind".into(), json!(kind));
+                let st = mon.state.lock();
+                let mut ops: Vec<String> = parked
+                    .iter()
+                    .filter_map(|t| st.last_pending.get(t))
+                    .map(|(n, e)| format!("{}/{}", n, if *e { "exec" } else { "fin" }))
+                    .collect();
+                ops.sort();
+                ops.dedup();
+                sm.insert("parked_ops".into(), json!(ops));
                 sm.insert("parked_tasks".into(), json!(parked));
             }
             Ok(Driven::Diverged) => {
